@@ -307,6 +307,14 @@ def tab7(ctx):
                         for p in hirq.walk(n[branch]):
                             if p["e"] == "mcall" and p["name"] == "push":
                                 push_under[val] = arg_name(p["recv"])
+    # the same dispatch written as match arms `Some(true) => into.push(..)`, `Some(false) => from.push(..)`
+    for m in hirq.matches(rd):
+        for arm in m["arms"]:
+            lits = [q["lit"] for q in hirq.walk_pats(arm["pat"]) if q.get("p") == "lit" and q.get("lk") == "bool"]
+            if len(lits) == 1:
+                for p in hirq.walk(arm["body"]):
+                    if p["e"] == "mcall" and p["name"] == "push":
+                        push_under.setdefault(lits[0], arg_name(p["recv"]))
     ok = bool(st) and bool(push_under) and push_under.get(st.get("@into")) == "into" and push_under.get(st.get("@from")) == "from"
     r.inst("alias: reader files lines after @into into `into` and after @from into `from`", fn_loc(rd), "ok" if ok else "report")
     if not ok:
